@@ -24,9 +24,13 @@ CONSTANTS Gaps,        \* gaps between packets that keep the connection alive (<
 VARIABLES now, last, up, sends, will, hist,
           fed        \* the client is subscribed to a topic on which somebody else publishes all the time: what the broker
                      \* SENDS to a client says nothing about the client being alive - only what it receives from it counts
-vars == <<now, last, up, sends, will, hist, fed>>
+\* prior: the connection resumes a stored session (CleanSession 0) whose earlier connection had negotiated another
+\* keep-alive ("long": 60 s): the keep-alive is a matter of the connection, what counts is this CONNECT's value
+CONSTANT Priors
+VARIABLE prior
+vars == <<now, last, up, sends, will, hist, fed, prior>>
 
-Init == now = 0 /\ last = 0 /\ up = TRUE /\ sends = 0 /\ will = FALSE /\ hist = <<>> /\ fed \in BOOLEAN
+Init == now = 0 /\ last = 0 /\ up = TRUE /\ sends = 0 /\ will = FALSE /\ hist = <<>> /\ fed \in BOOLEAN /\ prior \in Priors
 
 \* the last thing the client sent was the beginning of a packet ("part1": its first byte, "part3": a PUBLISH header
 \* announcing more than follows): these are bytes like any others (the deadline counts from them), and the rest never comes
@@ -37,16 +41,16 @@ MidPacket == hist # <<>> /\ Partial(hist[Len(hist)].kind)
 Send(g, kind) ==
   /\ up /\ sends < MaxSends /\ g \in Gaps /\ ~MidPacket
   /\ now' = now + g /\ last' = now + g /\ sends' = sends + 1
-  /\ hist' = Append(hist, [gap |-> g, kind |-> kind, expect |-> "up", fed |-> fed])
-  /\ UNCHANGED <<up, will, fed>>
+  /\ hist' = Append(hist, [gap |-> g, kind |-> kind, expect |-> "up", fed |-> fed, prior |-> prior])
+  /\ UNCHANGED <<up, will, fed, prior>>
 
 \* the client stays silent for g units: the deadline passes, the broker drops the connection
 \* as an abnormal end (will published); whatever the client sends afterwards finds it gone
 Silence(g) ==
   /\ up /\ g \in LongGaps
   /\ now' = now + g /\ up' = FALSE /\ will' = TRUE
-  /\ hist' = Append(hist, [gap |-> g, kind |-> "none", expect |-> "dropped", fed |-> fed])
-  /\ UNCHANGED <<last, sends, fed>>
+  /\ hist' = Append(hist, [gap |-> g, kind |-> "none", expect |-> "dropped", fed |-> fed, prior |-> prior])
+  /\ UNCHANGED <<last, sends, fed, prior>>
 
 Next == (\E g \in Gaps, k \in Kinds : Send(g, k)) \/ (\E g \in LongGaps : Silence(g))
 Spec == Init /\ [][Next]_vars
